@@ -93,8 +93,16 @@ def probe_programs(seed, n, depth=3):
     out = []
     for i in range(n):
         ctr = [0]
-        form = r.randrange(8)
-        if form == 0:
+        form = r.randrange(10)
+        if form >= 8:
+            # target and key are themselves subscripts of host containers, probes only in the inner keys
+            def sub(base):
+                e = _probe_expr(r, r.choice([0, 0, 1]), ctr)
+                return '%s[%s]' % (base, e)
+            tgt = r.choice([lambda: sub('nn'), lambda: 'hl', lambda: sub('nn'), lambda: sub(sub('nnn'))])()
+            key = r.choice([lambda: '0', lambda: sub('hl'), lambda: sub('hl'), lambda: sub(sub('nn')), lambda: _probe_expr(r, 1, ctr)])()
+            src = '%s[%s] %s %s' % (tgt, key, r.choice(['+=', '-=', '*=', '/=', '=']), _probe_expr(r, r.choice([0, 1]), ctr))
+        elif form == 0:
             a = 't%d()' % 1; ctr[0] = 1
             src = '%s[%s] = %s' % (a, _probe_expr(r, depth - 1, ctr), _probe_expr(r, depth - 1, ctr))
         elif form == 1:
@@ -114,7 +122,7 @@ def probe_programs(seed, n, depth=3):
             o = r.choice(['one', 'zero', 'list', 'dict', 'raise', 'str', 'two', 'none'])
             ret = {'one': 1, 'zero': 0, 'list': hl, 'dict': hd, 'raise': 0, 'str': 'a', 'two': Decimal(2), 'none': None}[o]
             host['t%d' % k] = {'h': 'probe', 'ret': ret, 'raises': o == 'raise'}
-        out.append({'names': [{'y': 1, 'hl': hl, 'hd': hd}], 'host': host, 'calls': [{'src': src, 'n': 0, 'max': 300}]})
+        out.append({'names': [{'y': 1, 'hl': hl, 'hd': hd, 'nn': [[1, 0, 2], [0, 1, 5]], 'nnn': [[[1, 0], [0, 1]], [[2, 1], [1, 0]]]}], 'host': host, 'calls': [{'src': src, 'n': 0, 'max': 300}]})
     return out
 
 
@@ -225,8 +233,9 @@ def nonmutator_calls(seed, n):
                  'b': r.choice([[3, 1, 2], [Decimal(2), Decimal(1), Decimal(3), Decimal(1)], ['b', 'a', 'c'], [[2], [1]], [], [1]]),
                  'd': {k: nested_value(r, 1) for k in r.sample(['x', 'y', 'z', '1'], r.randrange(0, 4))},
                  's': r.choice(['b a c', '', 'Hello', 'a,b,,c']), 'n': r.choice([2, Decimal('2.5'), -1]),
-                 'nn': [[3, 1], [2]], 'm': {'k': [2, 1]}}
-        args = ['a', 'b', 'd', 's', 'n', 'nn', 'm', 'm["k"]', 'nn[0]', 'None', 'True', 'v => 0 - v', 'v => v', '(p, q) => q', 'v => len(v)', '"a"', '" "', '0', '1',
+                 'nn': [[3, 1], [2]], 'm': {'k': [2, 1]},
+                 'ik': r.choice([{1: 'x', 2: [2, 1]}, {2: 'b', 1: 'a', 'k': 3}, {-1: [1], 0: 'z'}, {7: {1: 2}, 'rows': {3: 'c', 2: 'b'}}])}
+        args = ['a', 'b', 'd', 's', 'n', 'nn', 'm', 'ik', 'ik', 'm["k"]', 'nn[0]', 'None', 'True', 'v => 0 - v', 'v => v', '(p, q) => q', 'v => len(v)', '"a"', '" "', '0', '1',
                 'v => b', '(p, q) => p + q', 'v => str(v)']
         def call(depth):
             f = r.choice(NONMUT)
@@ -236,7 +245,7 @@ def nonmutator_calls(seed, n):
                 if depth > 0 and j == 0 and r.random() < 0.4:
                     xs.append(call(depth - 1))
                 else:
-                    xs.append(r.choice(args[:9] if j == 0 and r.random() < 0.8 else args))
+                    xs.append(r.choice(args[:11] if j == 0 and r.random() < 0.8 else args + ['2', '7', '-1', '"rows"', 'ik["rows"]']))
             form = r.randrange(3)
             if form == 0 or len(xs) == 0 or '=>' in xs[0]:
                 return '%s(%s)' % (f, ', '.join(xs))
@@ -249,7 +258,7 @@ def nonmutator_calls(seed, n):
 
 
 # ---- C14: container operation sequences -------------------------------------------------------
-C14_KEYS = ['0', '1', '1.0', '1.7', '-1', '-1.5', '5', '"1"', '"a"', 'True', 'None']
+C14_KEYS = ['0', '1', '1.0', '1.7', '-1', '-1.5', '5', '"1"', '"a"', 'True', 'None', '-3', '-4']
 C14_VALS = ['7', '"z"']
 
 
@@ -267,7 +276,7 @@ def c14_op_src(o):
 def c14_all_ops():
     ops = []
     for c in 'LD':
-        for k in range(1, 12):
+        for k in range(1, 14):
             for f in ('read', 'del', 'get', 'in'):
                 ops.append({'f': f, 'c': c, 'k': k, 'v': 1})
             for f in ('write', 'plus', 'getd', 'insert'):
@@ -278,7 +287,7 @@ def c14_all_ops():
                 ops.append({'f': f, 'c': c, 'k': 1, 'v': v})
         for f in ('pop', 'len', 'keys', 'values', 'items'):
             ops.append({'f': f, 'c': c, 'k': 1, 'v': 1})
-    for k in range(1, 12):
+    for k in range(1, 14):
         ops.append({'f': 'popi', 'c': 'L', 'k': k, 'v': 1})
     return ops
 
@@ -384,6 +393,26 @@ def numeric_programs(seed, n, host_types=False, depth=3):
 
 
 # ---- C19: random builtins -----------------------------------------------------------------------
+def literal_history_programs(seed, n):
+    """C08 across calls: earlier evaluations produce binary-float-derived numbers (float of a text or of a quotient, rand, round),
+    later programs write the same values as literals; the number tokens of every call are recorded."""
+    r = random.Random(seed)
+    out = []
+    for _ in range(n):
+        k = r.choice([1, 3, 7, 9, 11, 13, 17, 19, 23, 29, 31, 33, 37, 41, 43, 47, 49, 51, 57, 61, 99])
+        p = r.choice([10, 10, 100, 1000])
+        lit = str(k / p)
+        first = r.choice(['float(%d / %d)' % (k, p), 'x = %d / %d\nfloat(x)' % (k, p), 'float("%s")' % lit, 'float(h)',
+                          'round(float(%d / %d), 20)' % (k, p), 'abs(float(h))', 'float(%s)' % lit])
+        later = r.choice(['%s + 0.2 == %s' % (lit, str(Decimal(lit) + Decimal('0.2'))), 'str(%s)' % lit, '%s * 3' % lit, '[%s, %s + %s]' % (lit, lit, lit),
+                          '%s == %d / %d' % (lit, k, p), 'y = %s\ny - %s' % (lit, lit), '1 - %s' % lit])
+        calls = [{'src': first, 'n': 0, 'max': 50}, {'src': later, 'n': 0, 'max': 50}]
+        if r.random() < 0.4:
+            calls.append({'src': r.choice(['0.1 + 0.2 == 0.3', '0.1 + 0.2', '%s / 3' % lit, 'float(%s) == %s' % (lit, lit)]), 'n': 0, 'max': 50})
+        out.append({'names': [{'h': r.choice([k / p, Decimal(k) / Decimal(p), lit])}], 'host': {}, 'calls': calls, 'literals': True})
+    return out
+
+
 def random_builtin_programs(seed, n, draws=12):
     """Many draws per input: rand(), rand(a, b) over integer-valued bounds of every numeric type
     (Decimal literals, 2.0, 1E+1 style results, host ints, equal / negative / large bounds),
@@ -396,6 +425,7 @@ def random_builtin_programs(seed, n, draws=12):
                  'hd': Decimal(r.choice(['2', '2.0', '1E+1', '-3', '0', '7.00'])),
                  'l': r.choice([[], [1], [1, 1], [1, 2, 3], [[1], [1], 2], ['a', 'b', 'a', 'c'], [[1, 2], [3]], [None, True]])}
         names['hj'] = names['hi'] + r.choice([0, 1, 2, 3])
+        names['hb'] = Decimal('98765432109876543210987654321')
         c = r.randrange(8)
         if c == 0:
             e = 'rand()'
@@ -403,7 +433,8 @@ def random_builtin_programs(seed, n, draws=12):
             a, b = r.choice(bounds)
             e = 'rand(%s, %s)' % (('(- %d)' % -a) if a < 0 else a, ('(- %d)' % -b) if b < 0 else b)
         elif c == 3:
-            e = r.choice(['rand(hi, hj)', 'rand(hi, hi)', 'rand(hd, hd)', 'rand(0, hd)', 'rand(hd, 20)', 'rand(1.0, 3.0)', 'rand(10 / 5, 6 / 2)',
+            e = r.choice(['rand(1000000000000000000000000000001, 1000000000000000000000000000003)', 'rand(123456789012345678901234567891, 123456789012345678901234567891)',
+                          'rand(hb, hb + 2)', 'rand(hi, hj)', 'rand(hi, hi)', 'rand(hd, hd)', 'rand(0, hd)', 'rand(hd, 20)', 'rand(1.0, 3.0)', 'rand(10 / 5, 6 / 2)',
                           'rand(0 - hj, 0 - hi)', 'rand(len(l), 5)', 'rand(True, 2)'])
         elif c == 4:
             e = 'rand(l)'
@@ -432,8 +463,8 @@ def confinement_programs(seed, n):
     out = []
     for i in range(n):
         names = {'s': r.choice(['abc', '{0.__class__}', '__class__', '%s %r', 'a.b']), 'l': [1, [2, 'x'], {'k': 3}], 'd': {'a': [1, 2], 'b': {'c': None}},
-                 'n': r.choice([Decimal('2.5'), 7, 1.5, True]), 'user': {'name': 'bob', 'tags': ['x']}, 't': (1, [2])}
-        args = ['s', 'l', 'd', 'n', 'user', 't', 'l[1]', 'd["a"]', 'l[0:2]', '"__class__"', '"{0.__class__.__mro__}"', '"%s"', 'None', 'True', '0', '-1', '1.5',
+                 'n': r.choice([Decimal('2.5'), 7, 1.5, True]), 'user': {'name': 'bob', 'tags': ['x']}, 't': (1, [2]), 'e': [], 'ed': {}, 'es': ''}
+        args = ['s', 'l', 'd', 'n', 'user', 't', 'l[1]', 'd["a"]', 'l[0:2]', 'e', 'ed', 'es', 'filter(l, v => False)', '"__class__"', '"{0.__class__.__mro__}"', '"%s"', 'None', 'True', '0', '-1', '1.5',
                 '[]', '{}', 'v => v', 'len', 'str', 'dict', 'list', 'keys', '(p, q) => p', '"a"', 'user["name"]', 'items(d)', 'enumerate(l)']
         lines = []
         for _ in range(r.randrange(1, 4)):
@@ -441,7 +472,7 @@ def confinement_programs(seed, n):
             if c < 5:
                 f = r.choice(SPEC_BUILTINS)
                 k = r.choice([0, 1, 1, 2, 2, 3])
-                lines.append('%s = %s(%s)' % (r.choice(['r1', 'r2']), f, ', '.join(r.choice(args) for _ in range(k))))
+                lines.append('%s = %s(%s)' % (r.choice(['r1', 'r2']), f, ', '.join(r.choice(args[:13] if j == 0 else args) for j in range(k))))
             elif c == 5:
                 f, g = r.choice(SPEC_BUILTINS), r.choice(SPEC_BUILTINS)
                 lines.append('r3 = %s(%s(%s))' % (f, g, r.choice(args)))
